@@ -15,7 +15,9 @@ RULE = ('A case is a history of 3-30 evaluations of the real _run_sync loop '
         '1801 s, 3600 s), instances die (all / some), are started by someone '
         'else, monitors are written through masterapi.update_appmonitor '
         '(count 0-50, policy None/fifo/lifo/invalid, policy-only writes), '
-        'deleted and re-created, and the instance API succeeds or fails with '
+        'deleted and re-created, the ZooKeeper connection flaps (SUSPENDED '
+        'or LOST, then CONNECTED, no node changed; ~1 round in 10), and the '
+        'instance API succeeds or fails with '
         'NotFound / BadRequest / Validation / TooManyRequests / AlreadyExists '
         '/ MaxRequestRetries. Non-trivial = in the same history a bucket ran '
         'dry (budget below the number missing) and later paid for a create '
@@ -25,6 +27,11 @@ ASSUMPTIONS = [
     'ZooKeeper is an in-memory stand-in delivering one-shot watches '
     'synchronously; kazoo ChildrenWatch, treadmill ExistingDataWatch, '
     'masterapi and zkutils are the real code',
+    'a connection flap is delivered as KazooClient does: listeners hear '
+    'SUSPENDED/LOST, every client-side watcher is dropped and told NONE, '
+    'listeners hear CONNECTED (NONE notifications before or after, both '
+    'generated); requests never fail with ConnectionLoss; a flap changes '
+    'nothing in the model (same budget, suspension, instances)',
     'virtual clock (integer microseconds, +2us per read) replaces '
     'treadmill.sproc.appmonitor.time; its sleep() applies the next round',
     'restclient.post is a recorder; a successful create/delete really adds/'
@@ -104,6 +111,26 @@ def fixed_cases():
                 {'dt': 1000, 'ops': []},
                 {'dt': 0, 'ops': []},
                 {'dt': 0, 'ops': [['dieall', web]]},
+            ]}),
+        # a connection flap does not hand out a new budget: 4 tokens spent,
+        # flap (each flavour), the crash loop goes on
+        ('reconnect-keeps-budget', {
+            'seq0': 0,
+            'init': [['mon', web, 2, None], ['mon', 'other.db', 1, 'lifo'],
+                     ['spawn', 'other.db', 3]],
+            'rounds': [
+                {'dt': 0, 'ops': []},
+                {'dt': 0, 'ops': [['dieall', web]]},
+                {'dt': 0, 'ops': [['dieall', web]]},
+                {'dt': 0, 'ops': [['reconnect', 'suspended', 0],
+                                  ['dieall', web]]},
+                {'dt': 0, 'ops': [['dieall', web],
+                                  ['reconnect', 'lost', 1]]},
+                {'dt': 5, 'ops': [['reconnect', 'suspended', 1],
+                                  ['spawn', 'other.db', 2]]},
+                {'dt': 0, 'ops': [['reconnect', 'lost', 0]]},
+                {'dt': 0, 'ops': [['mon', web, 3, None]]},
+                {'dt': 0, 'ops': []},
             ]}),
         # monitors deleted / re-created / rewritten while apps interleave
         ('monitor-lifecycle', {
